@@ -13,6 +13,7 @@ import Rare.Proofs.C08Loops
 import Rare.Proofs.C08Sites
 import Rare.Proofs.C08Size
 import Rare.Proofs.C08Doubling
+import Rare.Proofs.C08ArrayBound
 import Rare.Proofs.C08Format
 import Rare.Proofs.C08TimeW
 import Rare.Proofs.C08TimeSeam
@@ -1103,6 +1104,32 @@ theorem for_doubling_counterexample :
   intro B
   refine ⟨List.replicate (B + 1) 97, [], List.replicate (B + 1) 97 ++ List.replicate (B + 1) 97, rfl, ?_⟩
   simp only [List.length_append, List.length_replicate]; omega
+
+/-- **`{@filter}` never grows its input**: for every context, every array expression and every predicate expression
+    that cannot panic, the answer has at most as many bytes as the array value (it is the array's own elements, a
+    sub-list, re-joined). -/
+theorem filter_output_bound (c : Ctx) (a0 a1 : Stage) (h0 : Safe a0) (h1 : Safe a1) :
+    ∃ arr out, a0.run c = .ok arr ∧ (Funcs.Range.filterStage a0 a1).run c = .ok out ∧ out.length ≤ arr.length :=
+  filterStage_length c a0 a1 h0 h1
+
+/-- **`{@map}` is linear in its elements**: if every value of the mapped expression (evaluated with `{0}` = an
+    element) has at most `B` bytes, the answer has fewer than `n·(B+1)` bytes, `n` = the number of elements
+    (`≤ len(array) + 1`).  Together with `range_output_bound`, `repeat_output_bound`, `for_output_bound` and
+    `filter_output_bound` this leaves exactly the accumulator family (`@reduce` / `@for` with an increment that
+    returns its own previous value: `for_doubling_all`) without a bound. -/
+theorem map_output_bound (c : Ctx) (a0 a1 : Stage) (h0 : Safe a0) (h1 : Safe a1) (B : Nat)
+    (hB : ∀ v0 v1 o, a1.run (C17.subCtx c v0 v1) = .ok o → o.length ≤ B) :
+    ∃ arr out, a0.run c = .ok arr ∧ (Funcs.Range.mapStage a0 a1).run c = .ok out ∧
+      out.length + 1 ≤ (C17.elems arr).length * (B + 1) ∧ (C17.elems arr).length ≤ arr.length + 1 :=
+  mapStage_length c a0 a1 h0 h1 B hB
+
+/-- non-vacuity: `{@map {0} "[{0}]"}`-like stage - the mapped value of a 3-byte-bounded element expression -/
+example : ∃ arr out, (Comp.match_ 0).run ⟨fun _ => [97, 0, 98, 99], fun _ => []⟩ = .ok arr ∧
+    (Funcs.Range.mapStage (Comp.match_ 0) (.ret [120, 121, 122])).run ⟨fun _ => [97, 0, 98, 99], fun _ => []⟩ = .ok out ∧
+    out.length + 1 ≤ (C17.elems arr).length * (3 + 1) ∧ (C17.elems arr).length ≤ arr.length + 1 :=
+  map_output_bound _ _ _ (Safe.match_ 0) (.ret _) 3 (fun _ _ o h => by
+    have : o = [120, 121, 122] := by injection h with h; exact h.symm
+    subst this; decide)
 
 /-- **Doubling for every round count** (round 4 had the instance `n = 12`): for every start value `s`, every
     `n ≤ MAX_ITERATIONS` and every context, `{@for s <until round n> "{0}{0}"}` returns, and its answer has exactly
